@@ -114,6 +114,8 @@ Definition op_outside (r : path) (op : fs_op) : Prop :=
   match op with
   | Write p _ | WriteIfAbsent p _ | Remove p | Mkdirs p => under r p = false
   | Rmtree p => under r p = false /\ under p r = false
+  | Stash _ => under r mem_slot = false
+  | Unstash p => under r p = false /\ under r mem_slot = false
   end.
 
 Definition inr (r : path) (kv : path * entry) : bool := under r (fst kv).
@@ -151,9 +153,19 @@ Proof.
   rewrite filter_app. simpl. unfold inr at 2. simpl. rewrite (H q (or_introl eq_refl)). apply app_nil_r.
 Qed.
 
+Lemma filter_remove_outside : forall r s p, under r p = false ->
+  filter (inr r) (filter (fun kv => negb (path_eqb (fst kv) p)) s) = filter (inr r) s.
+Proof.
+  intros r s p H. apply filter_filter_absorb. intros [q e] Hq. unfold inr in Hq. simpl in *.
+  destruct (path_eqb q p) eqn:E; [|reflexivity]. apply list_eqb_str_eq in E. subst. congruence.
+Qed.
+
+Lemma under_nil_false : forall r t, under r t = false -> under r [] = false.
+Proof. intros r t H. destruct r; [discriminate | reflexivity]. Qed.
+
 Lemma apply_outside : forall r s op, op_outside r op -> filter (inr r) (apply_op s op) = filter (inr r) s.
 Proof.
-  intros r s op H. destruct op as [p t|p t|p|p|p]; simpl in *.
+  intros r s op H. destruct op as [p t|p t|p|p|p|p|p]; simpl in *.
   - apply filter_set_outside. exact H.
   - destruct (exists_b s p); [reflexivity | apply filter_set_outside; exact H].
   - apply filter_filter_absorb. intros [q e] Hq. unfold inr in Hq. simpl in *.
@@ -163,11 +175,14 @@ Proof.
   - destruct H as [H1 H2]. apply filter_filter_absorb. intros [q e] Hq. unfold inr in Hq. simpl in *.
     destruct (under p q) eqn:E; [|reflexivity].
     destruct (under_comparable r p q Hq E) as [C|C]; congruence.
+  - destruct (lookup p s); [apply filter_set_outside; exact H | apply filter_remove_outside; exact H].
+  - destruct H as [H1 H2]. destruct (lookup mem_slot s); [|reflexivity].
+    rewrite filter_set_outside by exact H1. apply filter_remove_outside. exact H2.
 Qed.
 
 Lemma touched_outside : forall r s op p, op_outside r op -> In p (op_touched s op) -> under r p = false.
 Proof.
-  intros r s op p H Hin. destruct op as [q t|q t|q|q|q]; simpl in *.
+  intros r s op p H Hin. destruct op as [q t|q t|q|q|q|q|q]; simpl in *.
   - destruct Hin as [Hin|[]]. subst. exact H.
   - destruct (exists_b s q); [contradiction|]. destruct Hin as [Hin|[]]. subst. exact H.
   - destruct Hin as [Hin|[]]. subst. exact H.
@@ -177,6 +192,9 @@ Proof.
     apply filter_In in Hin. destruct Hin as [_ Hu]. simpl in Hu.
     destruct (under r p) eqn:E; [|reflexivity].
     destruct (under_comparable r q p E Hu) as [C|C]; congruence.
+  - contradiction.
+  - destruct H as [H1 H2]. destruct (exists_b s mem_slot); [|contradiction].
+    destruct Hin as [Hin|[]]. subst. exact H1.
 Qed.
 
 Lemma exec_outside : forall r pl s, Forall (fun so => op_outside r (snd so)) pl ->
@@ -204,10 +222,12 @@ Qed.
 
 Lemma rebase_outside : forall r t op, under r t = false -> under t r = false -> op_outside r (rebase t op).
 Proof.
-  intros r t op H1 H2. destruct op as [p n|p n|p|p|p]; simpl; try (apply disjoint_app; assumption).
-  split; [apply disjoint_app; assumption|].
-  destruct (under (t ++ p) r) eqn:E; [|reflexivity].
-  rewrite (under_trans t (t ++ p) r (under_app t p) E) in H2. discriminate.
+  intros r t op H1 H2. destruct op as [p n|p n|p|p|p|p|p]; simpl; try (apply disjoint_app; assumption).
+  - split; [apply disjoint_app; assumption|].
+    destruct (under (t ++ p) r) eqn:E; [|reflexivity].
+    rewrite (under_trans t (t ++ p) r (under_app t p) E) in H2. discriminate.
+  - eapply under_nil_false; exact H1.
+  - split; [apply disjoint_app; assumption | eapply under_nil_false; exact H1].
 Qed.
 
 Lemma before_incl : forall k l st, In st (before k l) -> In st l.
@@ -290,6 +310,8 @@ Definition rel_ok (c : config) (op : fs_op) : bool :=
   | Write q _ | WriteIfAbsent q _ | Remove q => allowed c (root c ++ q)
   | Mkdirs q => forallb (fun q' => allowed c (root c ++ q')) (prefixes q)
   | Rmtree q => under (out_pkg c) q || under (core_fqn c) q
+  | Stash _ => true
+  | Unstash q => allowed c (root c ++ q)
   end.
 
 Lemma prefixes_allowed : forall c d x, (d = out_pkg c \/ d = core_fqn c) ->
@@ -303,10 +325,11 @@ Qed.
 
 Lemma rel_ok_at : forall c d op, (d = out_pkg c \/ d = core_fqn c) -> rel_ok c (rebase d op) = true.
 Proof.
-  intros c d op Hd. destruct op as [p t|p t|p|p|p]; simpl;
+  intros c d op Hd. destruct op as [p t|p t|p|p|p|p|p]; simpl;
     try (apply (allowed_under_d c d _ Hd); apply under_app).
   - apply prefixes_allowed. exact Hd.
   - destruct Hd as [Hd|Hd]; subst d; rewrite under_app; [reflexivity | apply orb_true_r].
+  - reflexivity.
 Qed.
 
 Lemma rel_ok_map_at : forall c d ops, (d = out_pkg c \/ d = core_fqn c) ->
@@ -355,12 +378,17 @@ Proof.
     try (apply rel_ok_map_at; assumption).
   - (* Setup *)
     cbn [negb]. rewrite !forallb_app. repeat (apply andb_true_iff; split).
+    + destruct (under (out_pkg c) (core_fqn c) && negb (path_eqb (out_pkg c) (core_fqn c))); reflexivity.
     + simpl. rewrite under_refl. reflexivity.
     + apply rel_ok_mkdirs_parent. exact HO.
     + apply rel_ok_mkdirs_self. exact HO.
     + reflexivity.
     + destruct (path_eqb (core_fqn c) (out_pkg c)); [reflexivity|].
       cbn [forallb]. rewrite (rel_ok_mkdirs_parent c _ HK), (rel_ok_mkdirs_self c _ HK). reflexivity.
+    + destruct (under (out_pkg c) (core_fqn c) && negb (path_eqb (out_pkg c) (core_fqn c))); [|reflexivity].
+      cbn [forallb]. rewrite andb_true_r.
+      change (Unstash (core_fqn c ++ [s_registry])) with (rebase (core_fqn c) (Unstash [s_registry])).
+      apply rel_ok_at. exact HK.
     + apply rel_ok_init_chain. exact HO.
     + destruct (core_str_inside_out c); [reflexivity | apply rel_ok_init_chain; exact HK].
   - (* RichInit *)
@@ -379,7 +407,9 @@ Qed.
 Lemma touched_ok : forall c s op p, rel_ok c op = true ->
   In p (op_touched s (rebase (root c) op)) -> sunder (root c) p = true -> allowed c p = true.
 Proof.
-  intros c s op p Hok Hin Hs. destruct op as [q t|q t|q|q|q]; simpl in *.
+  intros c s op p Hok Hin Hs. destruct op as [q t|q t|q|q|q|q|q]; simpl in *;
+    [| | | | |contradiction|
+     destruct (exists_b s mem_slot); [destruct Hin as [Hin|[]]; subst; exact Hok | contradiction]].
   - destruct Hin as [Hin|[]]. subst. exact Hok.
   - destruct (exists_b s (root c ++ q)); [contradiction|]. destruct Hin as [Hin|[]]. subst. exact Hok.
   - destruct Hin as [Hin|[]]. subst. exact Hok.
@@ -590,7 +620,7 @@ Proof.
   - simpl.
     + apply Forall_forall. intros [st' op'] Hin. apply in_map_iff in Hin. destruct Hin as [op'' [E Hin]].
       inversion E; subst. simpl. apply in_app_or in Hin. destruct Hin as [Hin|Hin].
-      * destruct op as [p t|p t|p|p|p]; simpl in Ecut.
+      * destruct op as [p t|p t|p|p|p|p|p]; simpl in Ecut.
         -- destruct (base_matches name p); inversion Ecut; subst; contradiction.
         -- destruct (negb (exists_b s p) && base_matches name p); inversion Ecut; subst; contradiction.
         -- discriminate.
@@ -598,6 +628,8 @@ Proof.
              [|discriminate]. inversion Ecut; subst. destruct Hin as [Hin|[]]. subst.
            apply find_some in Ef. destruct Ef as [Ef _]. eapply Hcl; eauto.
         -- discriminate.
+        -- discriminate.
+        -- destruct (exists_b s mem_slot && base_matches name p); inversion Ecut; subst; contradiction.
       * pose proof (Hlog st') as HL. rewrite Forall_forall in HL. apply HL. exact Hin.
   - simpl. constructor; [exact H1 | apply IH; exact H2].
 Qed.
@@ -737,3 +769,181 @@ Lemma io_nonvacuous :
   /\ snd (generate_io cfg_ok s_mock_client fs_ok) = FailIO Mocks
   /\ (length (filter (sunder pR) (touched fs_ok (plan_io cfg_ok_force s_client_py fs_ok))) > 30)%nat.
 Proof. repeat split; vm_compute; try reflexivity; lia. Qed.
+
+(* ---------- the process is killed between two file operations (no clean-up runs) ---------- *)
+Theorem noforce_untouched_killed : forall c k s n,
+  wf_tmp c = true ->
+  restrict_root c (exec s (firstn n (plan_main c true k))) = restrict_root c s.
+Proof.
+  intros c k s n Hw. unfold restrict_root.
+  change (fun kv : path * entry => under (root c) (fst kv)) with (inr (root c)).
+  pose proof (plan_diff_outside c k Hw) as HF. apply Forall_app in HF. destruct HF as [HF1 _].
+  apply exec_outside. apply Forall_firstn. exact HF1.
+Qed.
+
+Theorem noforce_untouched_killed_io : forall c name s n,
+  wf_tmp c = true -> wf_log c = true ->
+  force c = false -> exists_b s (out_dir c) = true ->
+  restrict_root c (exec s (firstn n (plan_io c name s))) = restrict_root c s.
+Proof.
+  intros c name s n Hw Hl Hf He. unfold plan_io, io_run.
+  assert (Hd : diff_mode c s = true) by (unfold diff_mode; rewrite Hf, He; reflexivity).
+  rewrite Hd. unfold restrict_root.
+  change (fun kv : path * entry => under (root c) (fst kv)) with (inr (root c)).
+  apply exec_outside. apply Forall_firstn. apply Forall_app. split.
+  - apply (io_plan_Forall (op_outside (root c)) name c).
+    + intros p q. apply outside_closed.
+    + intro st. apply error_log_outside. exact Hl.
+    + pose proof (plan_diff_outside c None Hw) as HF. apply Forall_app in HF. apply HF.
+  - destruct (true && valid_pkgs c); [|constructor].
+    constructor; [|constructor]. simpl. destruct (wf_tmp_split c Hw) as [H1 H2]. split; assumption.
+Qed.
+
+(* ---------- the environment assumptions, reduced to more primitive facts ---------- *)
+(* every ancestor of an existing path exists *)
+Definition closed_fs (s : fs) : Prop :=
+  forall p q, exists_b s p = true -> q <> [] -> under q p = true -> exists_b s q = true.
+
+Record env_ok (c : config) (s : fs) : Prop := {
+  env_tmpdir : under (root c) (sys_tmp c) = false;   (* tempfile.gettempdir() is not the project root nor inside it *)
+  env_child  : tmp c <> [];                          (* mkdtemp: a child of gettempdir() ... *)
+  env_fresh  : exists_b s (tmp c) = false;           (* ... that did not exist before *)
+  env_root   : lookup (root c) s = Some Dir;         (* the project root is an existing directory *)
+  env_closed : closed_fs s;
+  env_log1   : lookup (sys_tmp c ++ [s_error_log]) s <> Some Dir;        (* the log files are not directories *)
+  env_log2   : lookup (sys_tmp c ++ [s_mocks_error_log]) s <> Some Dir
+}.
+
+Lemma under_snoc : forall r a x, under r (a ++ [x]) = true -> under r a = true \/ r = a ++ [x].
+Proof.
+  induction r as [|y r IH]; intros a x H.
+  - left. reflexivity.
+  - destruct a as [|z a]; simpl in *.
+    + apply andb_true_iff in H. destruct H as [E H]. apply str_eqb_eq in E. subst.
+      destruct r; [right; reflexivity | discriminate].
+    + apply andb_true_iff in H. destruct H as [E H]. apply str_eqb_eq in E. subst. rewrite str_eqb_refl. simpl.
+      destruct (IH a x H) as [H1|H1]; [left; exact H1 | right; subst; reflexivity].
+Qed.
+
+Lemma env_wf : forall c s, env_ok c s -> wf_tmp c = true /\ wf_log c = true.
+Proof.
+  intros c s [Ht Hc Hf Hr Hcl Hl1 Hl2].
+  assert (Hex : exists_b s (root c) = true) by (unfold exists_b; rewrite Hr; reflexivity).
+  assert (Htmp : tmp c = sys_tmp c ++ [last (tmp c) []]) by (unfold sys_tmp; apply app_removelast_last; exact Hc).
+  assert (Hlog : forall nm, lookup (sys_tmp c ++ [nm]) s <> Some Dir -> under (root c) (sys_tmp c ++ [nm]) = false).
+  { intros nm Hnm. destruct (under (root c) (sys_tmp c ++ [nm])) eqn:E; [|reflexivity].
+    destruct (under_snoc _ _ _ E) as [H|H]; [congruence|]. rewrite <- H in Hnm. congruence. }
+  split.
+  - unfold wf_tmp. apply andb_true_iff. split; apply negb_true_iff.
+    + destruct (under (root c) (tmp c)) eqn:E; [|reflexivity]. rewrite Htmp in E.
+      destruct (under_snoc _ _ _ E) as [H|H]; [congruence|].
+      rewrite <- Htmp in H. rewrite H in Hex. congruence.
+    + destruct (under (tmp c) (root c)) eqn:E; [|reflexivity].
+      rewrite (Hcl (root c) (tmp c) Hex Hc E) in Hf. discriminate.
+  - unfold wf_log. rewrite (Hlog _ Hl1), (Hlog _ Hl2). reflexivity.
+Qed.
+
+Theorem noforce_untouched_env : forall c k s,
+  env_ok c s -> force c = false -> exists_b s (out_dir c) = true ->
+  restrict_root c (fst (generate c k s)) = restrict_root c s.
+Proof. intros c k s He. destruct (env_wf c s He) as [Hw _]. apply noforce_untouched. exact Hw. Qed.
+
+(* ---------- where the paths of the resulting file system come from ---------- *)
+Definition paths (s : fs) : list path := map fst s.
+
+Lemma paths_set : forall s q e p, In p (paths (set s q e)) -> p = q \/ In p (paths s).
+Proof.
+  induction s as [|[q' e'] s IH]; intros q e p H; simpl in *.
+  - destruct H as [H|[]]. left. auto.
+  - destruct (path_eqb q q') eqn:E; simpl in H.
+    + destruct H as [H|H]; auto.
+    + destruct H as [H|H]; auto. apply IH in H. tauto.
+Qed.
+
+Lemma paths_filter : forall (f : path * entry -> bool) s p, In p (paths (filter f s)) -> In p (paths s).
+Proof.
+  intros f s p H. unfold paths in *. apply in_map_iff in H. destruct H as [kv [E H]].
+  apply filter_In in H. destruct H as [H _]. apply in_map_iff. exists kv. auto.
+Qed.
+
+Lemma exists_b_In : forall s p, exists_b s p = true -> In p (paths s).
+Proof.
+  unfold exists_b. induction s as [|[q e] s IH]; intros p H; simpl in *; [discriminate|].
+  destruct (path_eqb p q) eqn:E.
+  - left. apply list_eqb_str_eq in E. auto.
+  - right. apply IH. exact H.
+Qed.
+
+Lemma paths_mkdirs : forall l s p, In p (paths (fold_left mkdir1 l s)) -> In p (paths s) \/ In p l.
+Proof.
+  induction l as [|q l IH]; intros s p H; simpl in *; [left; exact H|].
+  apply IH in H. destruct H as [H|H]; [|right; right; exact H].
+  unfold mkdir1 in H. destruct (exists_b s q); [left; exact H|].
+  unfold paths in H. rewrite map_app in H. apply in_app_or in H. destruct H as [H|[H|[]]]; [left; exact H|].
+  right. left. exact H.
+Qed.
+
+Lemma apply_paths : forall s op p, In p (paths (apply_op s op)) ->
+  In p (paths s) \/ In p (op_touched s op) \/ p = mem_slot.
+Proof.
+  intros s op p H. destruct op as [q t|q t|q|q|q|q|q]; simpl in *.
+  - apply paths_set in H. destruct H as [H|H]; [right; left; left; auto | left; exact H].
+  - destruct (exists_b s q); [left; exact H|].
+    apply paths_set in H. destruct H as [H|H]; [right; left; left; auto | left; exact H].
+  - left. eapply paths_filter. exact H.
+  - apply paths_mkdirs in H. destruct H as [H|H]; [left; exact H|].
+    destruct (exists_b s p) eqn:E; [left; apply exists_b_In; exact E|].
+    right. left. apply filter_In. split; [exact H | rewrite E; reflexivity].
+  - left. eapply paths_filter. exact H.
+  - destruct (lookup q s).
+    + apply paths_set in H. destruct H as [H|H]; [right; right; exact H | left; exact H].
+    + left. eapply paths_filter. exact H.
+  - unfold exists_b. destruct (lookup mem_slot s).
+    + apply paths_set in H. destruct H as [H|H]; [right; left; left; auto | left; eapply paths_filter; exact H].
+    + left. exact H.
+Qed.
+
+Lemma exec_paths : forall pl s p, In p (paths (exec s pl)) ->
+  In p (paths s) \/ In p (touched s pl) \/ p = mem_slot.
+Proof.
+  unfold exec. induction pl as [|[st op] pl IH]; intros s p H; simpl in *; [left; exact H|].
+  apply IH in H. destruct H as [H|[H|H]].
+  - apply apply_paths in H. destruct H as [H|[H|H]]; [left; exact H | right; left; apply in_or_app; left; exact H | right; right; exact H].
+  - right. left. apply in_or_app. right. exact H.
+  - right. right. exact H.
+Qed.
+
+Lemma generate_is_exec : forall c k s, fst (generate c k s) = exec s (plan c k s).
+Proof. intros c k s. unfold generate, plan, exec. cbn [fst]. rewrite fold_left_app. reflexivity. Qed.
+
+Lemma sunder_mem_slot : forall r, sunder r mem_slot = false.
+Proof. intro r. unfold sunder, mem_slot. destruct r; reflexivity. Qed.
+
+(* every path strictly below the root after a call was there before or is an allowed path of the call *)
+Theorem generate_paths : forall c k s p,
+  wf_tmp c = true ->
+  In p (paths (fst (generate c k s))) -> sunder (root c) p = true ->
+  In p (paths s) \/ allowed c p = true.
+Proof.
+  intros c k s p Hw Hin Hs. rewrite generate_is_exec in Hin. apply exec_paths in Hin.
+  destruct Hin as [H|[H|H]].
+  - left. exact H.
+  - right. eapply contained; eauto.
+  - subst. rewrite sunder_mem_slot in Hs. discriminate.
+Qed.
+
+(* ---------- the command line entry ---------- *)
+(* a plain run (no --force) over an existing output package leaves the project untouched *)
+Theorem cli_default_untouched : forall c a k s,
+  wf_tmp c = true -> a_force a = None ->
+  exists_b s (out_dir (cli_config c a)) = true ->
+  restrict_root c (fst (generate (cli_config c a) k s)) = restrict_root c s.
+Proof.
+  intros c a k s Hw Hf He.
+  change (restrict_root c) with (restrict_root (cli_config c a)).
+  apply noforce_untouched; [exact Hw | simpl; rewrite Hf; reflexivity | exact He].
+Qed.
+
+Lemma cli_defaults : forall c a, a_force a = None -> a_no_postprocess a = None ->
+  force (cli_config c a) = false /\ post (cli_config c a) = true /\ core_pkg (cli_config c a) <> None.
+Proof. intros c a H1 H2. simpl. rewrite H1, H2. repeat split. discriminate. Qed.
